@@ -127,6 +127,11 @@ func (m *Model) DeriveValues(old, new proto.Message) {
 		}
 		return
 	}
+
+	if i := int(newVal.PresetIndex); newVal.Preset == "" && i >= 0 && i < len(m.presets) && m.presets[i].Percentage == newVal.Percentage {
+		// nothing changed but the update (one without a mask) has cleared the preset name, put it back
+		newVal.Preset = m.presets[i].Name
+	}
 }
 
 //goland:noinspection GoNameStartsWithPackageName
